@@ -120,6 +120,7 @@ type block struct {
 	dels [][]byte
 	txs  []tx
 	hash []byte
+	txh  [][]byte // hashes of the transactions indexed with the block (IndexBlock)
 }
 
 var dsAddrs = [][]byte{bytes.Repeat([]byte{0xD1}, 20), bytes.Repeat([]byte{0xD2}, 20), bytes.Repeat([]byte{0xD3}, 20)}
@@ -146,6 +147,9 @@ func mkBlock(caseSeed int64, salt, h uint64, keys [][]byte) block {
 		return
 	}
 	b.sets, b.dels = writes(1 + r.Intn(6))
+	for i, n := 0, 1+r.Intn(2); i < n; i++ {
+		b.txh = append(b.txh, crypto.Hash(append([]byte("tx"), be8(uint64(caseSeed)*7919+salt*4+uint64(i))...)))
+	}
 	for i, n := 0, r.Intn(5); i < n; i++ {
 		var t tx
 		t.sets, t.dels = writes(1 + r.Intn(5))
@@ -368,6 +372,11 @@ func commit(s *store.Store, b block) (root []byte, err error) {
 		return nil, e
 	}
 	br := &lib.BlockResult{BlockHeader: &lib.BlockHeader{Height: b.h, Hash: b.hash, NetworkId: 1}}
+	for i, th := range b.txh {
+		br.Transactions = append(br.Transactions, &lib.TxResult{Sender: th[:20], Recipient: th[12:32], MessageType: "send", Height: b.h, Index: uint64(i),
+			Transaction: &lib.Transaction{MessageType: "send", Signature: &lib.Signature{PublicKey: th, Signature: th}, CreatedHeight: b.h, Time: 1, Fee: 1, NetworkId: 1, ChainId: 1},
+			TxHash:      lib.BytesToString(th)})
+	}
 	if e := s.IndexBlock(br); e != nil {
 		return nil, e
 	}
@@ -963,6 +972,17 @@ func checkClone(o *drv.Out, name string, c clone, rec *record, cfg lib.Config) {
 			fail("C09:earlier-height-changed", fmt.Sprintf("reopened at %d: state as of %d differs from what was committed", h, i))
 		}
 	}
+	// a page query right after the restart (cold block cache): explorers and peers ask for pages of blocks; the
+	// header-only read of the block below the page must leave nothing behind that the reads below would be served
+	paged := false
+	if h >= 2 && o.Rng.Intn(2) == 0 {
+		func() {
+			defer func() { _ = recover() }()
+			_, _ = s.GetBlocks(lib.PageParams{PageNumber: 1 + o.Rng.Intn(2), PerPage: 1 + o.Rng.Intn(3)})
+			paged = true
+		}()
+		o.Count("reopen:page-query-before-block-reads")
+	}
 	// indexed blocks and QCs: present exactly for 1..h
 	maxH := 0
 	for b := 0; b <= c.started; b++ {
@@ -992,6 +1012,25 @@ func checkClone(o *drv.Out, name string, c clone, rec *record, cfg lib.Config) {
 		}
 		if !bytes.Equal(hash, want) || !bytes.Equal(qcHash, want) {
 			fail("C09:index-differs-from-committed-height", fmt.Sprintf("reopened at %d: block %d hash %x qc %x, expected %x", h, i, hash, qcHash, want))
+		} else if i <= h {
+			// the block comes with the transactions it was indexed with
+			wantTx := rec.evs[rec.snaps[p].chain[i-1]].blk.txh
+			same := blk != nil && len(blk.Transactions) == len(wantTx)
+			for j := 0; same && j < len(wantTx); j++ {
+				got, _ := lib.StringToBytes(blk.Transactions[j].TxHash)
+				same = bytes.Equal(got, wantTx[j])
+			}
+			if !same {
+				sig := "C09:index-differs-from-committed-height"
+				if paged {
+					sig = "C09:reopened-block-without-its-transactions:after-page-query"
+				}
+				n := 0
+				if blk != nil {
+					n = len(blk.Transactions)
+				}
+				fail(sig, fmt.Sprintf("reopened at %d: GetBlockByHeight(%d) has %d transactions, the block was indexed with %d", h, i, n, len(wantTx)))
+			}
 		}
 	}
 	// checkpoints and double signers indexed by the transactions (through their nested stores): point reads
